@@ -43,3 +43,19 @@ Definition reg_store_params (w : rworld) (p : reg_params) : outcome (rworld * un
   else Err 40.     (* Params.Validate failed; = ERR_APP of model/App.v *)
 
 Definition sdk_AccAddressFromBech32 (s : addr) : outcome addr := Ok s.
+
+(* ---- the fee getters the ante decorators use (keeper/params.go): sdk.NewInt64Coin(denom, int64(fee)) ---- *)
+Definition reg_GetParamDenom (w : rworld) : denom := rp_denom (r_params (rw_reg w)).
+Definition reg_GetZeroFeeAsCoin (w : rworld) : outcome go_coin := sdk_NewCoin (reg_GetParamDenom w) 0.
+Definition reg_GetRegistrationFeeAsCoin (w : rworld) : outcome go_coin :=
+  sdk_NewCoin (reg_GetParamDenom w) (go_int64_of_uint64 (rp_fee_register (r_params (rw_reg w)))).
+Definition reg_GetRecordFeeAsCoin (w : rworld) : outcome go_coin :=
+  sdk_NewCoin (reg_GetParamDenom w) (go_int64_of_uint64 (rp_fee_record (r_params (rw_reg w)))).
+Definition reg_GetPurchaseStorageFeeAsCoin (w : rworld) : outcome go_coin :=
+  sdk_NewCoin (reg_GetParamDenom w) (go_int64_of_uint64 (rp_fee_purchase (r_params (rw_reg w)))).
+(* the decorators' own errors (= ERR_FEE_* of model/App.v) *)
+Definition exported_ErrIncorrectFeeDenomination : Z := 50.
+Definition exported_ErrInsufficientWrkChainFee : Z := 51.
+Definition exported_ErrTooMuchWrkChainFee : Z := 52.
+Definition exported_ErrInsufficientBeaconFee : Z := 51.
+Definition exported_ErrTooMuchBeaconFee : Z := 52.
